@@ -993,13 +993,13 @@ class PDSLabelEncoder(ODLEncoder):
                     # First try to convert any GROUPs that would not
                     # be valid PDS GROUPs.
                     if isinstance(v, self.grpcls) and not self.is_PDSgroup(v):
-                        module[k] = self.objcls(v)
+                        self._replace_value(module, k, v, self.objcls(v))
                         break
                 else:
                     # Then just convert the first GROUP
                     for k, v in module.items():
                         if isinstance(v, self.grpcls):
-                            module[k] = self.objcls(v)
+                            self._replace_value(module, k, v, self.objcls(v))
                             break
                     else:
                         raise ValueError(
@@ -1020,6 +1020,22 @@ class PDSLabelEncoder(ODLEncoder):
             return s.replace("\t", (" " * self.tab_replace))
         else:
             return s
+
+    @staticmethod
+    def _replace_value(module, key, old, new):
+        """Replaces the value object *old* (found under *key*) with *new*
+        in *module*, in place.
+
+        A plain ``module[key] = new`` on a multi-dict replaces the first
+        item with that key (which need not be *old*) and deletes all the
+        other items that have the same key.
+        """
+        if hasattr(module, "extend") and hasattr(module, "clear"):
+            items = [(k, new if v is old else v) for k, v in module.items()]
+            module.clear()
+            module.extend(items)
+        else:
+            module[key] = new
 
     def is_PDSgroup(self, group: abc.Mapping) -> bool:
         """Returns true if the dict-like *group* qualifies as a PDS Group,
